@@ -131,3 +131,18 @@ Proof.
   destruct (exec ext body (mkState vars0 [])) as [[|v] st|n st|w]; cbn [obs] in H; try discriminate;
     destruct m as [a|e]; cbn [exp_of] in H; inversion H; subst; eexists; split; reflexivity || eassumption.
 Qed.
+
+Lemma exec_if' : forall ext c t f st,
+  exec ext (SIf c t f) st = bind (eval ext c st) (fun cv st1 => if truthy cv then exec ext t st1 else exec ext f st1).
+Proof. reflexivity. Qed.
+
+(* evaluate the test of an `if` statement with both branches hidden behind variables *)
+Ltac open_if :=
+  match goal with
+  | |- context [exec ?e (SIf ?c ?t ?f) ?st] =>
+      let bt := fresh "bt" in let bf := fresh "bf" in
+      remember t as bt; remember f as bf; rewrite (exec_if' e c bt bf st)
+  end.
+
+Lemma subscript_enc17_t : forall t k st, subscript (enc17 t) (enc17 k) st = Stuck "subscript".
+Proof. intros [| | |] [| | |]; reflexivity. Qed.
